@@ -63,3 +63,9 @@ package types
 //@   ensures length: len(result.KeyPath) == len(prefix)
 //@   ensures head: forall i int :: 0 <= i && i < len(prefix) - 1 ==> str(result.KeyPath[i]) == str(prefix[i])
 //@   ensures last: str(result.KeyPath[len(prefix) - 1]) == str(prefix[len(prefix) - 1]) + str(path)
+
+//@ contract (Acknowledgement).Validate
+//@   invariant #1 nonempty_so_far: forall j int :: 0 <= j && j <= rangeindex ==> len(ack.AppAcknowledgements[j]) > 0 && (len(ack.AppAcknowledgements) > 1 ==> str(ack.AppAcknowledgements[j]) != str(ErrorAcknowledgement))
+//@   invariant #1 idx: 0 - 1 <= rangeindex && rangeindex < len(ack.AppAcknowledgements)
+//@   ensures nonempty_list: err == nil ==> len(ack.AppAcknowledgements) > 0
+//@   ensures elements: err == nil ==> forall j int :: 0 <= j && j < len(ack.AppAcknowledgements) ==> len(ack.AppAcknowledgements[j]) > 0 && (len(ack.AppAcknowledgements) > 1 ==> str(ack.AppAcknowledgements[j]) != str(ErrorAcknowledgement))
